@@ -30,8 +30,9 @@
       is not represented;
     * the ghost field `startedAt` is a function of the history and is carried over.
   The generic store vocabulary (`sortBy`, `importVals`, `exportVals`, `ltNat`) is the one of
-  Model/Genesis (C18); `Lemmas/LockupChain.embed_restart` ties this restart to C18's
-  `importLockup ∘ exportLockup`.
+  Model/Genesis (C18): `periodLocks` / `storeLocks` are C18's `Genesis.periodLocks` /
+  `Genesis.importLockup` over M-Lockup's lock record (which adds what C18 abstracts away: the
+  accumulation store and the parameters' effect on later messages).
 -/
 import DymVerif.Model.Lockup
 import DymVerif.Model.Genesis
